@@ -1,4 +1,5 @@
 import NbioVerif.Lemmas.WsRfcMain
+import NbioVerif.Lemmas.RfcBridge
 import NbioVerif.Lemmas.C13Table
 /-! C13 — WebSocket frame validation follows RFC 6455.
 
@@ -13,16 +14,41 @@ import NbioVerif.Lemmas.C13Table
       a trailing incomplete frame whose header is already invalid may or may not be refused early. -/
 namespace Ws
 
+/-- the RFC predicate instantiated for an endpoint: same role, extension and limit; masking direction not enforced;
+    `infl` = what RFC 7692 §7.2.2 inflation gives for a complete compressed message (parameter of the specification) -/
+def rfcCfg (g : Cfg) (infl : Bytes → Rfc.TInfl) : Rfc.Cfg :=
+  { server := !g.isClient, compress := g.enableCompression, limit := g.msgLimit, strict := false, infl }
+
+/-- the codec assumption, in the specification's terms: what the endpoint's decompressor really does on a message — as
+    `readAll` experiences it (output, chunking, capacities: `e.inflate`) — is what the specification's `infl` says:
+    the inflated message when it is within the limit, `big` when it is not, `err` when the stream is corrupt.
+    (Nothing else of `compress/flate` enters; the harness checks it per message against an independent inflate.) -/
+def InflAgrees (g : Cfg) (e : Env) (infl : Bytes → Rfc.TInfl) : Prop :=
+  ∀ m, infl m = match readAll g.msgLimit (m.length * 2) (e.inflate m) with
+    | .ok b => .ok b
+    | .tooLarge _ => .big
+    | _ => .err
+
+theorem rfcCfg_eq (g : Cfg) (e : Env) (infl : Bytes → Rfc.TInfl) (h : InflAgrees g e infl) : rfcCfg g infl = rfcOf g e := by
+  unfold rfcCfg rfcOf
+  congr
+  funext m
+  exact h m
+
 /-- the RFC predicate with the masking direction enforced (§5.1) -/
-def rfcStrict (g : Cfg) (e : Env) : Rfc.Cfg := { rfcOf g e with strict := true }
+def rfcStrict (g : Cfg) (infl : Bytes → Rfc.TInfl) : Rfc.Cfg := { rfcCfg g infl with strict := true }
 
 /-- C13 (main theorem; masking direction aside): for every byte string, every segmentation of it into Parse calls, every
     role, limit and compression setting, mask keys and inflater behaviour, Parse accepts exactly the frame sequences the
     RFC allows, with the same deliveries and replies, and fails the connection on the others without delivering the
-    offending message. (`readLimit = 0`: the read-limit test is about segments, not frames.) -/
-theorem c13_partial (g : Cfg) (e : Env) (hl : g.readLimit = 0) (segs : List Bytes) :
+    offending message. The specification side (`Rfc.run`, `Rfc.decode`: Model/Rfc6455.lean) shares no definition with the
+    model: its decoder, byte order, unmasking, UTF-8 and close-code rules are written from the RFCs and proved equal to
+    the model's helpers in Lemmas/RfcBridge.lean. (`readLimit = 0`: the read-limit test is about segments, not frames.) -/
+theorem c13_partial (g : Cfg) (e : Env) (infl : Bytes → Rfc.TInfl) (hinfl : InflAgrees g e infl) (hl : g.readLimit = 0)
+    (segs : List Bytes) :
     Agree g e 0 (feed g e {} segs [])
-      (Rfc.run (rfcOf g e) {} 0 [] (Rfc.decode (segs.flatten.length + 1) segs.flatten)) := by
+      (Rfc.run (rfcCfg g infl) {} 0 [] (Rfc.decode (segs.flatten.length + 1) segs.flatten)) := by
+  rw [rfcCfg_eq g e infl hinfl, Rfc.run_eq, Rfc.decode_eq]
   have hw : Within g {} := by intro _; simp [msgLen, K.len]
   have hnf : nextFrame g {} = .need := by simp [nextFrame, decodeHdr]
   have hobs := feed_flatten g e hl segs {} [] hw hnf
@@ -58,19 +84,20 @@ theorem run_strict (rg : Rfc.Cfg) : ∀ (fs : List Rfc.Frame) (st : Rfc.St) (i :
 
 /-- C13 at full strength on correctly masked input: when every frame is masked the way §5.1 demands for the receiving
     role, Parse agrees with the RFC predicate that does enforce the masking direction -/
-theorem c13_masked (g : Cfg) (e : Env) (hl : g.readLimit = 0) (segs : List Bytes)
+theorem c13_masked (g : Cfg) (e : Env) (infl : Bytes → Rfc.TInfl) (hinfl : InflAgrees g e infl) (hl : g.readLimit = 0)
+    (segs : List Bytes)
     (hm : ∀ f ∈ Rfc.decode (segs.flatten.length + 1) segs.flatten, f.masked = !g.isClient) :
     Agree g e 0 (feed g e {} segs [])
-      (Rfc.run (rfcStrict g e) {} 0 [] (Rfc.decode (segs.flatten.length + 1) segs.flatten)) := by
-  have := run_strict (rfcOf g e) _ {} 0 [] hm
-  have e1 : rfcStrict g e = { rfcOf g e with strict := true } := rfl
-  have e2 : rfcOf g e = { rfcOf g e with strict := false } := rfl
+      (Rfc.run (rfcStrict g infl) {} 0 [] (Rfc.decode (segs.flatten.length + 1) segs.flatten)) := by
+  have := run_strict (rfcCfg g infl) _ {} 0 [] hm
+  have e1 : rfcStrict g infl = { rfcCfg g infl with strict := true } := rfl
+  have e2 : rfcCfg g infl = { rfcCfg g infl with strict := false } := rfl
   rw [e1, this, ← e2]
-  exact c13_partial g e hl segs
+  exact c13_partial g e infl hinfl hl segs
 
 /- Full statement (does NOT hold on the current tree — known finding "ws-mask-direction"):
    theorem c13 (g e) (hl : g.readLimit = 0) (segs) :
-     Agree g e 0 (feed g e {} segs []) (Rfc.run (rfcStrict g e) {} 0 [] (Rfc.decode (segs.flatten.length + 1) segs.flatten)) -/
+     Agree g e 0 (feed g e {} segs []) (Rfc.run (rfcStrict g infl) {} 0 [] (Rfc.decode (segs.flatten.length + 1) segs.flatten)) -/
 
 def srvCfg : Cfg := { enableCompression := false, writeCompression := false, msgLimit := 0, readLimit := 0, maxFrame := 32768, isClient := false }
 def nullEnv : Env := { keyAt := fun _ => [0, 0, 0, 0], deflate := id, inflate := fun _ => ⟨[], []⟩ }
@@ -78,7 +105,7 @@ def nullEnv : Env := { keyAt := fun _ => [0, 0, 0, 0], deflate := id, inflate :=
 /-- C13 counterexample (masking direction, RFC 6455 §5.1): a server endpoint is sent the unmasked text frame "a".
     The RFC says fail the connection; Parse delivers the message and keeps the connection open. -/
 theorem c13_mask_counterexample :
-    (Rfc.run (rfcStrict srvCfg nullEnv) {} 0 [] (Rfc.decode 4 [0x81, 1, 0x61])).verdict = .reject .mask ∧
+    (Rfc.run (rfcStrict srvCfg (fun _ => .err)) {} 0 [] (Rfc.decode 4 [0x81, 1, 0x61])).verdict = .reject .mask ∧
     (feed srvCfg nullEnv {} [[0x81, 1, 0x61]] []).acts = [.deliver 1 [0x61]] ∧
     (feed srvCfg nullEnv {} [[0x81, 1, 0x61]] []).err = none ∧
     (feed srvCfg nullEnv {} [[0x81, 1, 0x61]] []).s.k.connClosed = false := by
@@ -99,8 +126,33 @@ theorem c13_close_close (g : Cfg) (e : Env) (k : K) (p : Bytes) (fin r1 : Bool) 
 
 /-- C13 (decoder): on every byte string `nextFrame` is the RFC's base-framing decoder followed by the checks —
     non-minimal length encodings, 64-bit lengths with the top bit set and all flag combinations included -/
-theorem c13_decoder (g : Cfg) (s : S) (hw : Within g s) : nextFrame g s = judge g s (Rfc.decode1 s.cache) :=
-  nextFrame_eq_judge g s hw
+theorem c13_decoder (g : Cfg) (s : S) (hw : Within g s) : nextFrame g s = judge g s (Rfc.decode1 s.cache) := by
+  rw [Rfc.decode1_eq]; exact nextFrame_eq_judge g s hw
+
+/-- C13 (the independent pieces of the specification are the model's helpers): network byte order, §5.3 unmasking,
+    RFC 3629 UTF-8 validity (decode the scalar, shortest form, no surrogates, ≤ U+10FFFF) -/
+theorem c13_spec_helpers (key b : Bytes) :
+    Rfc.beNat b = WsF.beDec b ∧ Rfc.unmask key 0 b = maskSpec key b ∧ Rfc.utf8Ok b = utf8Valid b :=
+  ⟨Rfc.beNat_eq b, Rfc.unmask_eq key b, Rfc.utf8Ok_eq b⟩
+
+/-- C13 (what is written back on a close frame): an echo of the payload when it is valid, a close frame with code 1002
+    (with the reason "invalid UTF-8 bytes" for a bad reason text) otherwise -/
+theorem c13_close_reply (g : Cfg) (e : Env) (k : K) (p : Bytes) :
+    ∃ d, (handleWs g e k 8 p).1 = send g e k 8 d ++ [.closeConn] ∧
+      ((p.length = 0 ∨ (p.length ≥ 2 ∧ validCloseCode (WsF.beDec (p.take 2)) = true ∧ utf8Valid (p.drop 2) = true)) → d = p) ∧
+      (¬ (p.length = 0 ∨ (p.length ≥ 2 ∧ validCloseCode (WsF.beDec (p.take 2)) = true ∧ utf8Valid (p.drop 2) = true)) →
+        d = be16 1002 ∨ d = be16 1002 ++ str "invalid UTF-8 bytes") :=
+  close_reply g e k p
+
+/-- C13 (the per-frame table below is the specification's header rule): `rfcFrameOk` = `Rfc.hdrCheck` accepts, over the
+    whole header space, for a frame without payload -/
+theorem c13_frame_table_is_hdrCheck :
+    ∀ comp ∈ [true, false], ∀ op ∈ List.range 16, ∀ fin ∈ [true, false], ∀ r1 ∈ [true, false], ∀ r2 ∈ [true, false],
+    ∀ r3 ∈ [true, false], ∀ ex ∈ [true, false],
+      rfcFrameOk comp op fin r1 r2 r3 ex =
+        (Rfc.hdrCheck { server := true, compress := comp, limit := 0, strict := false, infl := fun _ => .err }
+          { inMsg := ex } { fin, r1, r2, r3, masked := true, op }).isNone := by
+  decide
 
 /-- C13 (tables, regenerated from the code on every run): nbio's `validFrame` is the model's, over all 1024 rows -/
 theorem c13_validFrame_table : Gen.validFrameTable = modelFrameTable := validFrame_table
@@ -113,11 +165,13 @@ theorem c13_frame_rfc :
 
 /-- C13 (close codes): nbio's `validCloseCode` (all 65 536 codes, regenerated) is the model's, which is RFC 6455 §7.4 -/
 theorem c13_closeCode_table (c : Nat) : validCloseCode c = inIntervals Gen.validCloseIntervals c := validCloseCode_table c
-theorem c13_closeCode_rfc (c : Nat) : validCloseCode c = Rfc.closeCodeOk c := validCloseCode_rfc c
+/-- … where the RFC side is written by exclusion (§7.4.1: 1004 reserved; 1005, 1006, 1015 must not be sent; §7.4.2 ranges) -/
+theorem c13_closeCode_rfc (c : Nat) : validCloseCode c = Rfc.closeCodeOk c := by
+  rw [Rfc.closeCodeOk_eq]; exact validCloseCode_rfc c
 
 /-! non-vacuity: a fragmented text message with a ping in between, then an invalid close code -/
 example : (feed srvCfg nullEnv {} [[0x01, 1, 0x61, 0x89, 0], [0x80, 1, 0x62, 0x88, 2, 0x03, 0xf7]] []).acts.length = 4 := by decide
-example : (Rfc.run (rfcOf srvCfg nullEnv) {} 0 [] (Rfc.decode 13 [0x01, 1, 0x61, 0x89, 0, 0x80, 1, 0x62, 0x88, 2, 0x03, 0xf7])).verdict
+example : (Rfc.run (rfcCfg srvCfg (fun _ => .err)) {} 0 [] (Rfc.decode 13 [0x01, 1, 0x61, 0x89, 0, 0x80, 1, 0x62, 0x88, 2, 0x03, 0xf7])).verdict
     = .reject .closeCode := by decide
 
 end Ws
